@@ -45,7 +45,10 @@ def variant(rng, data, shapes, k):
     s2 = [tuple(m(x) for x in t) for t in shapes]
     rng.shuffle(d2)
     rng.shuffle(s2)
-    prefixes = rng.choice([[], [("ex", "http://ex.org/")], [("e", "http://ex.org/"), ("s", str(SH))], [("ex", "http://other.org/"), ("x", "http://ex.org/")]])
+    pool = [[], [("ex", "http://ex.org/")], [("e", "http://ex.org/"), ("s", str(SH))], [("ex", "http://other.org/"), ("x", "http://ex.org/")],
+            [("o", "http://other.org/"), ("ex", "http://ex.org/")], [("o", "http://ex.org/"), ("ex", "http://other.org/")], [("o", "http://other.org/")], [("p", "http://other.org/"), ("e", "http://ex.org/")]]
+    # the two graphs have their own namespace managers: their bindings vary independently
+    prefixes = (rng.choice(pool), rng.choice(pool))
     return d2, s2, prefixes
 
 
@@ -84,12 +87,22 @@ def main(tier, seed, replay=None):
                 # first-wins slip there shows only when the set is enumerated in another order
                 c = EC.base_case(rng, p_focused=1.0, tmpls=[lambda r_, n_, l_: S.tmpl_qualified(r_, n_, l_, easy=True, n_pool=3), lambda r_, n_, l_: S.tmpl_qualified(r_, n_, l_, easy=True, n_pool=3), S.tmpl_qualified, S.tmpl_shared])
                 opts, api, fam = {}, "validate", "shape sets (qualified siblings, shared references)"
-            elif r < 0.5:
+            elif r < 0.44:
                 c = LV.gen_case(rng)
                 c["sg"] = S.shapes_to_rdf(c["shapes"])
                 opts, api, fam = {}, "validate", "core components"
             elif r < 0.62:
                 c = c05.gen_case(rng)
+                if rng.random() < 0.7:
+                    # a $PATH constraint over a predicate of a namespace that no sh:declare mentions: it has to be written in full
+                    # in the query, whatever prefixes the two graphs happen to bind for it
+                    OTHER = rdflib.Namespace("http://other.org/")
+                    c["sg"].parse(data="@prefix sh: <http://www.w3.org/ns/shacl#> . @prefix ex: <http://ex.org/> .\n"
+                                       "ex:OP a sh:PropertyShape ; sh:path <http://other.org/p> ; sh:targetSubjectsOf <http://other.org/p> ;\n"
+                                       "  sh:sparql [ sh:prefixes ex:prefixes ; sh:select \"SELECT $this ?value WHERE { $this $PATH ?value . FILTER (isLiteral(?value)) }\" ] .\n"
+                                       "ex:prefixes a <http://www.w3.org/2002/07/owl#Ontology> ; sh:declare [ sh:prefix \"ex\" ; sh:namespace \"http://ex.org/\"^^<http://www.w3.org/2001/XMLSchema#anyURI> ] .", format="turtle")
+                    for _ in range(rng.randint(1, 3)):
+                        c["data"].add((rng.choice([EX.n0, EX.n1]), OTHER.p, rng.choice([Literal(1), EX.n0])))
                 opts, api, fam = {}, "validate", "sparql constraints"
             elif r < 0.7:
                 # an ill-formed list (a node with two rdf:rest or two rdf:first values) has no well-defined members:
@@ -121,7 +134,7 @@ def main(tier, seed, replay=None):
             cases.append({"family": fam, "shapes_ttl": c["sg"].serialize(format="nt"), "data_nt": c["data"].serialize(format="nt"), "options": opts, "api": api})
             for k in range(nvar + 1):
                 if k == 0:
-                    d2, s2, prefixes, hs = data, shapes, [], "0"
+                    d2, s2, prefixes, hs = data, shapes, ([], []), "0"
                 else:
                     d2, s2, prefixes = variant(rng, data, shapes, k)
                     hs = rng.choice(SEEDS)
